@@ -426,6 +426,16 @@ class Martingale(Lemma):
         samp = numeric_point(regime, {spot: lambda g: g.uniform(50, 150), r: lambda g: g.uniform(0.0, 0.08), d: lambda g: g.uniform(0.0, 0.05), t: lambda g: g.uniform(0.1, 3.0)})
         cf = to_sp(vc.method(model, "log_characteristic_function", SpVal(t), -1j))
         vc.check_zero(nm + "::characteristic-function-at-minus-i-is-the-forward", lambda: sp.simplify(sp.log(sp.simplify(cf / (spot * sp.exp((r - d) * t))))), samp)
+        if route == "constructed":
+            # the rate is an attribute of the model: after it is reassigned every route must follow the new rate
+            r2 = S("r_new", positive=True)
+            vc.interp.setattr(model, "r", SpVal(r2))
+            omega = to_sp(model.fields["omega"])
+            samp_r = lambda g: {**samp(g), r2: g.uniform(0.0, 0.08)}
+            cf2 = to_sp(vc.method(model, "log_characteristic_function", SpVal(t), -1j))
+            vc.check_zero(nm + "::after-a-rate-update:characteristic-function-at-minus-i-is-the-new-forward", lambda: sp.simplify(sp.log(sp.simplify(cf2 / (spot * sp.exp((r2 - d) * t))))), samp_r)
+            vc.check_zero(nm + "::after-a-rate-update:drift-coefficient-follows-the-new-rate", lambda: sp.simplify(to_sp(vc.method(model, "drift")) - (r2 - d + omega)), samp_r)
+            vc.interp.setattr(model, "r", SpVal(r))
         mean1 = to_sp(vc.method(model, "mean", SpVal(t)))
         vc.check_zero(nm + "::mean-of-S_t/S_0-is-exp((r-d)t)", lambda: sp.simplify(sp.log(sp.simplify(mean1 / sp.exp((r - d) * t)))), samp)
         if regime["own_drift"]:
